@@ -1,6 +1,6 @@
 #!/bin/bash
 # Runs the quick tier of every claimed check on /repo and prints one line each; exit 1 if any is not clean.
-cd /verif || exit 2
+cd "$(dirname "$(readlink -f "$0")")/.." || exit 2
 bad=0
 for p in $(python3 -c "import json;print(' '.join(c['property_id'] for c in json.load(open('MANIFEST.json'))['checks']))"); do
   out="$(VERIF_SEED="${VERIF_SEED:-1}" ./check "$p" "${1:-quick}" 2>&1)"; rc=$?
